@@ -3,6 +3,7 @@ package main
 import (
 	"fmt"
 	"go/token"
+	"regexp"
 	"go/types"
 	"sort"
 	"strings"
@@ -333,37 +334,131 @@ func (c *Ctx) analyseEmission(m *parserModel, li int, f *ssa.Function, call *ssa
 			typeRecv = callRecv(tc.Common())
 		}
 	}
-	// find the match block walking up the dominator tree
+	// Walk the dominator chain from the function entry down to the emission and record, in order, how
+	// each block is entered (T = matched edge of a single-token type test, X = true edge of the
+	// multi-token matcher) and the relevant calls inside (M = consume, L<k> = level call, E = emission).
+	var chain []*ssa.BasicBlock
 	for d := call.Block(); d != nil; d = d.Idom() {
+		chain = append([]*ssa.BasicBlock{d}, chain...)
+	}
+	type rec struct {
+		kind  string
+		ks    []int64
+		recvs []ssa.Value
+		block *ssa.BasicBlock
+	}
+	var recs []rec
+	for _, d := range chain {
 		if ks, recvs, ok := c.orEntry(d, pkgParsers, "ExpressionToken"); ok {
-			e.guard = ks
-			e.dblock = d
-			if e.viaToken {
-				e.tokenOK = true
-				for _, r := range recvs {
-					if !c.sameToken(r, typeRecv) {
-						e.tokenOK = false
-					}
-				}
-				e.emitted = append([]int64{}, ks...)
-			}
-			break
-		}
-		if len(d.Preds) == 1 {
+			recs = append(recs, rec{kind: "T", ks: ks, recvs: recvs, block: d})
+		} else if len(d.Preds) == 1 {
 			p := d.Preds[0]
 			if ifi, ok := p.Instrs[len(p.Instrs)-1].(*ssa.If); ok && p.Succs[0] == d {
 				if mc, ok := ifi.Cond.(*ssa.Call); ok {
 					if cc, isM := c.callTo(mc, pkgParsers, "ExpressionParser", "matchTokensWithTypes"); isM {
-						a := callArgs(cc)
-						if len(a) == 1 {
+						if a := callArgs(cc); len(a) == 1 {
 							if ks, ok := variadicConsts(a[0]); ok {
-								e.matcher = ks
-								e.dblock = d
-								break
+								recs = append(recs, rec{kind: "X", ks: ks, block: d})
 							}
 						}
 					}
 				}
+			}
+		}
+		for _, in := range d.Instrs {
+			if in == ssa.Instruction(call) {
+				break
+			}
+			ci, ok := in.(ssa.CallInstruction)
+			if !ok {
+				continue
+			}
+			g := ci.Common().StaticCallee()
+			switch {
+			case g == nil:
+			case g.Name() == "moveToNextToken" && c.FuncKey(g) == pkgParsers+".(*ExpressionParser).moveToNextToken":
+				recs = append(recs, rec{kind: "M", block: d})
+			case isLevel[g]:
+				recs = append(recs, rec{kind: fmt.Sprintf("L%d", m.levelIdx[g]), block: d})
+			case g == call.Call.StaticCallee():
+				recs = append(recs, rec{kind: "E", block: d})
+			}
+		}
+	}
+	// the operator region starts at the first T/X record; level calls before it are the left operand
+	first := -1
+	for i, r := range recs {
+		if r.kind == "T" || r.kind == "X" {
+			first = i
+			break
+		}
+	}
+	if first >= 0 && li < 6 {
+		e.dblock = recs[first].block
+		for _, r := range recs[:first] {
+			if strings.HasPrefix(r.kind, "L") {
+				e.leftOperand = true
+			}
+		}
+		var parts []string
+		var opTokens [][]int64
+		for i := first; i < len(recs); i++ {
+			r := recs[i]
+			parts = append(parts, r.kind)
+			switch r.kind {
+			case "T":
+				opTokens = append(opTokens, r.ks)
+				if e.viaToken && len(opTokens) == 1 {
+					e.tokenOK = true
+					for _, rv := range r.recvs {
+						if !c.sameToken(rv, typeRecv) {
+							e.tokenOK = false
+						}
+					}
+				}
+			case "X":
+				for _, k := range r.ks {
+					opTokens = append(opTokens, []int64{k})
+				}
+			}
+		}
+		e.seq = strings.Join(parts, " ")
+		if len(opTokens) == 1 && recs[first].kind == "T" {
+			e.guard = opTokens[0]
+			if e.viaToken {
+				e.emitted = append([]int64{}, e.guard...)
+			}
+		} else {
+			// a token sequence: every position must be a single constant
+			for _, t := range opTokens {
+				if len(t) != 1 {
+					e.matcher = nil
+					break
+				}
+				e.matcher = append(e.matcher, t[0])
+			}
+		}
+		r := reachableBlocks(call.Block(), nil)
+		for _, p := range e.dblock.Preds {
+			if r[p] {
+				e.loops = true
+			}
+		}
+	} else if first >= 0 {
+		// primary level: remember the nearest single-token guard for diagnostics
+		for i := len(recs) - 1; i >= 0; i-- {
+			if recs[i].kind == "T" {
+				e.guard = recs[i].ks
+				if e.viaToken {
+					e.tokenOK = true
+					for _, rv := range recs[i].recvs {
+						if !c.sameToken(rv, typeRecv) {
+							e.tokenOK = false
+						}
+					}
+					e.emitted = append([]int64{}, recs[i].ks...)
+				}
+				break
 			}
 		}
 	}
@@ -406,58 +501,6 @@ func (c *Ctx) analyseEmission(m *parserModel, li int, f *ssa.Function, call *ssa
 				}
 			}
 			e.dblock = nil
-		}
-	}
-	if e.dblock != nil {
-		// calls on the dominator chain dblock .. emission
-		var chain []*ssa.BasicBlock
-		for d := call.Block(); d != nil; d = d.Idom() {
-			chain = append(chain, d)
-			if d == e.dblock {
-				break
-			}
-		}
-		var sb strings.Builder
-		for i := len(chain) - 1; i >= 0; i-- {
-			for _, in := range chain[i].Instrs {
-				if in == ssa.Instruction(call) {
-					break
-				}
-				ci, ok := in.(ssa.CallInstruction)
-				if !ok {
-					continue
-				}
-				g := ci.Common().StaticCallee()
-				switch {
-				case g == nil:
-				case g.Name() == "moveToNextToken" && c.FuncKey(g) == pkgParsers+".(*ExpressionParser).moveToNextToken":
-					sb.WriteString("M")
-				case isLevel[g]:
-					fmt.Fprintf(&sb, "L%d", m.levelIdx[g])
-				case g == call.Call.StaticCallee():
-					sb.WriteString("E")
-				}
-			}
-		}
-		e.seq = sb.String()
-		// left operand: a level call in a block strictly dominating the match block
-		for _, ci := range allCalls(f) {
-			g := ci.Common().StaticCallee()
-			if g == nil || !isLevel[g] {
-				continue
-			}
-			if ci.Block() != e.dblock && ci.Block().Dominates(e.dblock) {
-				// exclude calls that are themselves inside the matched region
-				e.leftOperand = true
-			}
-		}
-		// loop: the emission block can reach the match block again
-		r := reachableBlocks(call.Block(), nil)
-		e.loops = false
-		for _, p := range e.dblock.Preds {
-			if r[p] {
-				e.loops = true
-			}
 		}
 	}
 	return e
@@ -678,20 +721,21 @@ func ruleGramPostorder(c *Ctx) []*Obligation {
 		label := c.tokNames(m, e.emitted)
 		key := fmt.Sprintf("parsers.(*ExpressionParser).%s#level%d#order#%s", f.Name(), e.level, label)
 		next := fmt.Sprintf("L%d", e.level+1)
-		var wantSeq string
-		switch {
-		case kind == "postfix":
-			wantSeq = ""
-		case e.matcher != nil:
-			wantSeq = next
+		var wantRe string
+		switch kind {
+		case "postfix":
+			wantRe = `^((T M|X) ?)+$`
+		case "prefix":
+			wantRe = `^T M ` + next + `$`
 		default:
-			wantSeq = "M" + next
+			wantRe = `^((T M|X) )+` + next + `$`
 		}
+		wantSeq := wantRe
 		wantLeft := kind != "prefix"
 		wantLoop := kind != "prefix"
 		var bad []string
-		if e.seq != wantSeq {
-			bad = append(bad, fmt.Sprintf("between match and emission the parser does %q, expected %q (M=consume operator, L<k>=parse operand at level k, E=emit)", e.seq, wantSeq))
+		if !regexp.MustCompile(wantRe).MatchString(e.seq) {
+			bad = append(bad, fmt.Sprintf("between match and emission the parser does %q, expected to match %s (T=operator test, M=consume it, X=multi-token match, L<k>=parse operand at level k, E=emit)", e.seq, wantSeq))
 		}
 		if e.leftOperand != wantLeft {
 			bad = append(bad, fmt.Sprintf("left operand parsed before the operator test: %v, expected %v", e.leftOperand, wantLeft))
